@@ -17,7 +17,10 @@ INVALID_STMT = [
     "case 1 { }", "x = 99999999999999999999;", "x = [1,, 2];", "x = f(1,, 2);", "x = f(1;", "}", "x = 1; }", "x = (;", "x = );",
 ]
 INVALID_EXPR = ['"unterminated', "/unterminated", "(1 + ", "[1, 2", '{"a": 1', "1 + ", "* 2", "a ? b ? 1 : 2 : 3", "#", "1 @ 2", "\x00",
-                "99999999999999999999", "(3 = 4)", "f(1,, 2)", ")", "if", "(a ? 1 : b ? 2 : 3)"]
+                "99999999999999999999", "(3 = 4)", "f(1,, 2)", ")", "if", "(a ? 1 : b ? 2 : 3)", "(1 += 2)", '("s" -= 1)', "[1 *= 2]"]
+# positions whose expression the compiler never translates (it only prints it): the right operand of `.` and the callee of a call
+UNCOMPILED_CONTEXTS = ["x = a.%s;", "x = %s(3);", "return a.%s;", "if (a.%s) { x = 1; }", "x = f(1)%s;" if False else "x = a[0].%s;", "function q() { return %s(); }"]
+COMPILE_INVALID = ["(1 += 2)", '("s" -= 1)', "[1 *= 2]", "(f() /= 2)"]
 VALID_STMT = ["x = 1;", 'x = "s";', "x++;", "x += 2;", "t(x);", "if (x) { y = 1; } else { y = 2; }", "foreach v in [1] { y = v; }",
               "while (x < 0) { x++; }", "switch (x) { case 1 { y = 1; } default { y = 2; } }", "x = a ? 1 : 2;", "x = /re/i;", "return 1;"]
 VALID_EXPR = ["1", '"s"', "a + 1", "(a)", "[1, 2]", '{"a": 1}', "f(1)", "a[0]", "a.b", "-a", "!a", "/re/"]
@@ -99,6 +102,12 @@ class C13(Prop):
                         src = rng.choice(STMT_CONTEXTS[2:]) % src
                     out.append(case(src, False, "invalid-expr"))
                     out.append(case(rng.choice(PREFIXES) + src, False, "invalid-expr-after-valid"))
+        for frag in COMPILE_INVALID:
+            for ctx in UNCOMPILED_CONTEXTS:
+                for pre in ["", rng.choice(PREFIXES)]:
+                    c = case(pre + ctx % frag, False, "invalid-in-uncompiled-position")
+                    c.tags.add("uncompiled-position")
+                    out.append(c)
         for frag in VALID_STMT:
             for ctx in STMT_CONTEXTS:
                 src = ctx % frag
@@ -137,5 +146,8 @@ class C13(Prop):
                 if opens > 0:
                     out.append(case(pre, False, "truncation"))
         return out
+
+    def in_class(self, klass, case):
+        return klass == "uncompiled-position" and "uncompiled-position" in case.tags
 
 PROP = C13()
